@@ -143,6 +143,12 @@ func (lb *WeightedRandomLoadBalancer) ChooseServer(req *httpprot.Request) *Serve
 		return nil
 	}
 
+	// No server has a weight (discovered instances carry none by default, and
+	// all-zero weights pass validation): every server is equally eligible.
+	if lb.totalWeight <= 0 {
+		return lb.Servers[rand.Intn(len(lb.Servers))]
+	}
+
 	randomWeight := rand.Intn(lb.totalWeight)
 	for _, server := range lb.Servers {
 		randomWeight -= server.Weight
